@@ -17,6 +17,13 @@ Import-free apart from `TTV.Model.Reactor` and the generated table. -/
 namespace TTV.Spinner
 open TTV.Reactor
 
+/-- what a delayed call scheduled by a delayed call does (a chain of calls): nothing, register a selectable, or schedule the next -/
+inductive Child
+  | noop
+  | addSel
+  | spawn (d : Nat) (c : Child)
+deriving DecidableEq, Repr
+
 inductive Act
   | fire (v : Nat)              -- d.callback(v)        (a second firing raises AlreadyCalledError: no effect)
   | fail (e : Nat)              -- d.errback(KeyError(e))
@@ -25,6 +32,9 @@ inductive Act
   | addSel                      -- reactor.selectables.append(Sel(label))
   | setSig (s h : Nat)          -- signal.signal(SIGNALS[s], handler h)
   | reenter (fresh : Bool)      -- call Spinner.run from inside (same spinner / a fresh one on the same reactor)
+  | spawn (d : Nat) (c : Child)  -- `reactor.callLater(d, <c>)`: a delayed call that schedules another one when it runs.  DOMAIN: only in
+                                -- runs whose `f` returns or raises synchronously - the loop of `reactor.run()` then does not iterate,
+                                -- the call is a leftover and can only be run by `_clean`'s obligatory iterations (`execI`)
   | late (failed : Bool) (back v : Nat)
                                 -- fire (fail) the Deferred of the run `back` runs earlier - of this or the other Spinner - with v:
                                 -- the callbacks that run hung on it belong to a run that is over and do nothing
@@ -36,8 +46,14 @@ deriving DecidableEq, Repr
 inductive Term | ret (v : Nat) | raise (e : Nat) | deferred
 deriving DecidableEq, Repr
 
+def Child.toAct : Child → Act
+  | .noop => .noop
+  | .addSel => .addSel
+  | .spawn d c => .spawn d c
+
 structure Scen where
   timeout : Nat
+  oblig : Nat := 0              -- `Spinner._OBLIGATORY_REACTOR_ITERATIONS` (0 by default; 2 for the broken-Twisted runner)
   bad : Bool := false           -- the timeout is one the reactor rejects (negative): `reactor.callLater` raises; `timeout` is unused
   pre : List (Nat × Act)
   body : List Op
@@ -96,6 +112,7 @@ def exec (lbl : Nat) (a : Act) (w : W) : W :=
   | .setSig s h => { w with sigs := w.sigs.set s h }
   | .reenter _ => { w with u := { w.u with reentries := w.u.reentries ++ [.reentry] } }   -- not_reentrant
   | .late _ _ _ => w                                -- `during_this_run`: the run that installed the callbacks is over
+  | .spawn _ _ => w                                 -- (never reached while the loop runs, see `Act.spawn`; `execI` is its meaning)
 
 def schedPre : Nat → List (Nat × Act) → W → W
   | _, [], w => w
@@ -151,6 +168,31 @@ def spinPhase (sc : Scen) (w : W) : W :=
   let w := finishF sc.term (runBody sc.pre.length sc.body w)
   spin exec (fun w => w.calls.length) (w.calls.length + 1) w
 
+/-- the labels of the scenario's own calls are below `labels sc`; the call scheduled by the call with label `l` gets `l + labels sc` -/
+def labels (sc : Scen) : Nat := sc.pre.length + sc.body.length
+
+/-- `_clean`'s obligatory iterations run a due call: like the loop does, and a `spawn` schedules its child -/
+def execI (sc : Scen) (c : DCall (QAct Act)) (w : W) : W :=
+  match c.act with
+  | .timeout => execTimeout w
+  | .user l a =>
+    let w := logEvent (.user l) w
+    match a with
+    | .spawn d ch => schedule (w.now + d) (.user (l + labels sc) ch.toAct) w
+    | .fire _ => w          -- the run is over: the callbacks on its Deferred are dead (`during_this_run`)
+    | .fail _ => w
+    | a => exec l a w
+
+/-- one `reactor.iterate(0)`: the calls that are due when it starts run, in the reactor's order; what they schedule - even with
+delay 0 - waits for the next iteration; the clock stands still -/
+def iterOnce (sc : Scen) (w : W) : W :=
+  (w.calls.filter (fun c => decide (c.time ≤ w.now))).foldl (fun w c => execI sc c w)
+    { w with calls := w.calls.filter (fun c => !decide (c.time ≤ w.now)) }
+
+def iterations (sc : Scen) : Nat → W → W
+  | 0, w => w
+  | n + 1, w => iterations sc n (iterOnce sc w)
+
 def runStep (sc : Scen) (w0 : W) : W × RunObs :=
   let w : W := schedPre 0 sc.pre { w0 with t0 := w0.now, events := [], u := {} }
   if !w.sp.junk.isEmpty then
@@ -172,10 +214,12 @@ def runStep (sc : Scen) (w0 : W) : W × RunObs :=
   else
     let w := spinPhase sc w
     -- finally: reactor.stop = real_stop; _restore_signals(): the handlers in `_saved_signals` are installed, the list is emptied
+    -- (and, since an interrupted run ends without `_stop_reactor`, `_spinning` is cleared)
     let w := { w with running := false, stopPatched := false, sigs := restoreFrom 0 w.sp.saved w.sigs,
-                      sp := { w.sp with saved := [] } }
+                      sp := { w.sp with saved := [], spinning := false } }
     let result := getResult w.sp
-    -- finally: _clean()
+    -- finally: _clean(): the obligatory iterations, then whatever is left is cancelled / removed and recorded as junk
+    let w := iterations sc sc.oblig w
     let w := { w with calls := [], sels := [], sp := { w.sp with junk := w.sp.junk ++ leftovers w } }
     (w, { result := result, events := w.events, reentries := w.u.reentries, junk := w.sp.junk,
           pending := w.calls.length, sels := w.sels.length, running := w.running, stopRestored := !w.stopPatched,
